@@ -135,7 +135,11 @@ func c14Gen(r *Rng, i int) *Sx {
 			if r.Chance(1, 8) {
 				p = "" // rewritten to an empty payload
 			}
-			act = L(A("rewrite"), S(Pick(r, c14Topics)), S(p), I(r.Intn(3)))
+			q := r.Intn(3)
+			if r.Chance(1, 3) {
+				q += 4 * r.Range(1, 2) // the hook also clears (4..6) or sets (8..10) the RETAIN flag
+			}
+			act = L(A("rewrite"), S(Pick(r, c14Topics)), S(p), I(q))
 		default:
 			act = L(A("accept"))
 		}
@@ -151,7 +155,11 @@ func c14Gen(r *Rng, i int) *Sx {
 		case 0, 1:
 			act = L(A("drop"))
 		case 2, 3:
-			act = L(A("rewrite"), S(Pick(r, c14Topics)), S("W"+c), I(r.Intn(3)))
+			q := r.Intn(3)
+			if r.Chance(1, 3) {
+				q += 4 * r.Range(1, 2)
+			}
+			act = L(A("rewrite"), S(Pick(r, c14Topics)), S("W"+c), I(q))
 		default:
 			act = L(A("accept"))
 		}
